@@ -73,6 +73,9 @@ SIMPLE = [
     ('reboot', 'reboot', lambda c, cb: c.reboot(), False, True),
     ('reboot_arg', 'reboot:recovery', lambda c, cb: c.reboot('recovery', timeout_ms=1), False, True),
     ('reboot_bl', 'reboot-bootloader', lambda c, cb: c.reboot_bootloader(), False, True),
+    # an argument that is given but empty is still an argument: "command:" 
+    ('erase_empty', 'erase:', lambda c, cb: c.erase(''), False, False),
+    ('getvar_empty', 'getvar:', lambda c, cb: c.get_var('', info_cb=cb), True, True),
 ]
 
 SIMPLE_ALPHA = ['INFOa', 'INFO', 'OKAY', 'OKAYxy', 'DATA00000001', 'FAILboom',
@@ -284,8 +287,68 @@ def work_items(tier):
   return items
 
 
+# ---- two commands on ONE FastbootCommands object: every command is sent, every answer is the device's current answer ----
+PAIR_SCRIPTS = [['OKAYone'], ['INFOi', 'OKAYtwo'], ['FAILno'], ['OKAY']]
+
+
+def run_pair(e1, s1, e2, s2):
+  fp, ue = _mods()
+  usb = FakeUsb(list(s1) + list(s2))
+  cmds = fp.FastbootCommands(usb)
+  bad = []
+  done = 0
+  for k, (entry, script) in enumerate(((e1, s1), (e2, s2))):
+    name, packet, call, has_cb, returns = entry
+    infos = []
+    cb = lambda m, infos=infos: infos.append((m.header, m.message))
+    ret, exc = None, None
+    w0 = len(usb.writes)
+    try:
+      ret = call(cmds, cb)
+    except Exception as e:  # pylint: disable=broad-except
+      exc = e
+    exp = fbspec.simple(packet, script)
+    if usb.writes[w0:] != exp['writes']:
+      bad.append(('packets', 'command %d (%s): device received %r, expected exactly %r' % (k, name, usb.writes[w0:], exp['writes'])))
+    if has_cb and [m for h, m in infos if h == 'INFO'] != exp['infos']:
+      bad.append(('info', 'command %d (%s): INFO callbacks %r expected %r' % (k, name, infos, exp['infos'])))
+    kind = classify(exc, ue)
+    if exp['result'][0] == 'ret':
+      if kind is not None:
+        bad.append(('result', 'command %d (%s) raised %s(%s), expected return %r' % (k, name, kind, exc, exp['result'][1])))
+      elif returns and ret != exp['result'][1]:
+        bad.append(('result', 'command %d (%s) returned %r, the device answered %r' % (k, name, ret, exp['result'][1])))
+    elif kind != exp['result'][1]:
+      bad.append(('result', 'command %d (%s): got %s (ret=%r exc=%r), expected %s' % (k, name, kind, ret, exc, exp['result'][1])))
+    done += exp['consumed']
+    if usb.pos != done:
+      bad.append(('consumed', 'after command %d the host had read %d responses, expected %d' % (k, usb.pos, done)))
+      break
+  return bad
+
+
+def _pair_work(item):
+  i1, start, step = item
+  n, viols = 0, []
+  k = 0
+  for i2 in range(len(SIMPLE)):
+    for a, s1 in enumerate(PAIR_SCRIPTS):
+      for b, s2 in enumerate(PAIR_SCRIPTS):
+        n += 1
+        for kind, what in run_pair(SIMPLE[i1], s1, SIMPLE[i2], s2):
+          viols.append(('pairs:%s:%s>%s' % (kind, SIMPLE[i1][0], SIMPLE[i2][0]), '%s%r then %s%r on one connection object: %s'
+                        % (SIMPLE[i1][0], s1, SIMPLE[i2][0], s2, what), {'pair': [i1, a, i2, b]}))
+  return n, viols
+
+
 def run(tier):
   rep = common.Report(PID, tier, 'model_checking')
+  pres = common.pmap(_pair_work, [(i, 0, 1) for i in range(len(SIMPLE))], chunksize=1)
+  for r in pres:
+    rep.merge_violations(r[1])
+  npairs = sum(r[0] for r in pres)
+  rep.add_part('two commands on one connection object', states=npairs, transitions=2 * npairs, traces_validated_against_impl=npairs,
+               exhaustive=True, samples=[{'commands': [e[0] for e in SIMPLE], 'scripts': PAIR_SCRIPTS}])
   items = work_items(tier)
   res = common.pmap(_work, items, chunksize=1)
   st = tr = 0
@@ -313,6 +376,12 @@ def run(tier):
 
 
 def replay(art):
+  if 'pair' in art.get('replay', {}):
+    i1, a, i2, b = art['replay']['pair']
+    bad = run_pair(SIMPLE[i1], PAIR_SCRIPTS[a], SIMPLE[i2], PAIR_SCRIPTS[b])
+    for x in bad:
+      print('VIOLATED', x)
+    return 1 if bad else 0
   r = art['replay']
   label, script = r['label'], r['script']
   for e in SIMPLE:
